@@ -18,7 +18,7 @@ bool documented_code(long r) { return (r <= -1 && r >= -3) || (r <= -128 && r >=
 
 struct Handle {
   unsigned char *mem = nullptr; OggVorbis_File *vf = nullptr; SimFile sf; FILE *fp = nullptr;
-  bool open = false, part = false, ever_ok = false, alloc = false;
+  bool open = false, part = false, ever_ok = false, alloc = false, static_mem = false;
   int hr = 0;                 // model: half-rate flag
   bool hr_touched = false;    // any ov_halfrate call so far
   bool seekable = true;
@@ -74,7 +74,11 @@ struct VfRun {
 
   // ---- handle management
   void halloc(Handle &H) {
-    H.mem = new unsigned char[sizeof(OggVorbis_File) + 64]; Prng pr(poison_seed ^ 0x77);
+    // three runs in five keep the handle in the same static storage, as an application with a global OggVorbis_File does: whatever the library keeps
+    // outside its objects under a handle's address then meets the next stream opened there (process history, see main.cpp: preludes)
+    alignas(64) static unsigned char arena[2][sizeof(OggVorbis_File) + 64];
+    H.static_mem = (poison_seed % 5) < 3; if (H.static_mem) g_stats.inc("probe.handle_in_reused_static_storage");
+    H.mem = H.static_mem ? arena[&H == &B ? 1 : 0] : new unsigned char[sizeof(OggVorbis_File) + 64]; Prng pr(poison_seed ^ 0x77);
     for (size_t i = 0; i < sizeof(OggVorbis_File) + 64; i++) H.mem[i] = poison_mode == 0 ? 0 : poison_mode == 1 ? 0xFF : poison_mode == 2 ? 0xAA : (unsigned char)pr.next();
     H.vf = (OggVorbis_File *)H.mem; H.alloc = true;
   }
